@@ -451,7 +451,7 @@ def run(chk, tier):
                 run_batch(chk, pool, part, "exhaustive")
                 done += len(part)
             enumerated[name] = dict(interleavings=len(scheds), all_enumerated=complete, run=done)
-        chk.extra["exhaustive"] = enumerated
+        chk.extra["exhaustive_configurations"] = enumerated       # (the schema keeps "exhaustive" for a boolean)
         chk.extra["worker_restarts"] = pool.restarts
     finally:
         pool.close()
